@@ -99,9 +99,22 @@ def gen_json(rng, depth=3, budget=None, nonfinite=True):
     return out
 
 
+def gen_deep(rng, depth=None):
+    """A narrow value nested 20-120 levels deep (well below the interpreter's recursion limit)."""
+    depth = depth or rng.choice([20, 40, 80, 120])
+    v = gen_scalar(rng)
+    for i in range(depth):
+        v = {gen_str(rng, 3) or "k": v} if rng.random() < 0.5 else [v]
+    return v
+
+
 def gen_payload(rng, nonfinite=True):
     """Payload for an envelope: mostly objects (as real metadata), sometimes any JSON value."""
     r = rng.random()
+    if r < 0.02:
+        return {"deep": gen_deep(rng)}
+    if r < 0.03:
+        return {"long": gen_str(rng, 3) * rng.choice([1000, 30000]), "many": list(range(rng.choice([100, 3000])))}
     if r < 0.75:
         d = gen_json(rng, rng.choice([1, 2, 3, 4]), None, nonfinite)
         if not isinstance(d, dict):
